@@ -59,6 +59,12 @@ fn plan_candidates(p: &Plan) -> Vec<Plan> {
             ..p.clone()
         });
     }
+    if p.replace_before_open.is_some() {
+        out.push(Plan {
+            replace_before_open: None,
+            ..p.clone()
+        });
+    }
     if p.open_fail.is_some() {
         out.push(Plan {
             open_fail: None,
@@ -210,6 +216,17 @@ pub fn shrink(
                 if !improved {
                     break;
                 }
+            }
+        }
+
+        // 1c. an honest stat
+        if best.stat_lies != 0 {
+            let mut c = best.clone();
+            c.stat_lies = 0;
+            if let Some(nv) = cx.fails(&c) {
+                best = c;
+                best_v = nv;
+                progress = true;
             }
         }
 
